@@ -76,16 +76,55 @@ def classify(body):
                         and s['rv'].get('variant') == 'Ok':
                     ok = True
         return ('noop', {}) if ok else ('primary', {'why': 'no calls but does not return Ok(())'})
-    # delegation shape
-    if len(calls) == 2:
-        (b1, t1), (b2, t2) = calls
-        c1, c2 = callee_of(t1), callee_of(t2)
-        if c1 and c2 and c1.get('trait') == TRAIT and c1['name'].startswith('parse_') \
-                and c2['path'] == 'std::result::Result::<T, E>::map_err':
-            info = {'call_bb': b1, 'callee_name': c1['name'], 'callee_full': c1['full'], 't': t1,
-                    'map_err': t2}
-            return ('delegation', info)
+    # delegation shape: exactly one `parse_*` call of the trait; every other call only plumbs that call's
+    # Result into the return value (`.map_err(E::Variant)`, or `?` with the error's `From` impl)
+    pcalls = []
+    plumbing = []
+    other = []
+    for bb, t in calls:
+        c = callee_of(t)
+        if c and c.get('trait') == TRAIT and c['name'].startswith('parse_'):
+            pcalls.append((bb, t, c))
+        elif c and (c['path'] in RESULT_PLUMBING or (c['name'] in ('from', 'into') and c['path'].startswith('std::convert::'))):
+            plumbing.append((bb, t, c))
+        else:
+            other.append((bb, t, c))
+    if len(pcalls) == 1 and not other and plumbing:
+        b1, t1, c1 = pcalls[0]
+        info = {'call_bb': b1, 'callee_name': c1['name'], 'callee_full': c1['full'], 't': t1,
+                'plumbing': [(t, c) for _b, t, c in plumbing]}
+        return ('delegation', info)
     return ('primary', {})
+
+
+RESULT_PLUMBING = {'std::result::Result::<T, E>::map_err', 'std::ops::Try::branch', 'std::ops::FromResidual::from_residual'}
+
+
+def _flows_from(body, l, src, depth=0, seen=None):
+    """local l is (a move/copy/downcast-field of) local src or of a plumbing result derived from it"""
+    seen = seen if seen is not None else set()
+    if l == src:
+        return True
+    if l is None or l in seen or depth > 10:
+        return False
+    seen.add(l)
+    for bi, si, kind, st in body.defs.get(l, []):
+        if kind == 'assign':
+            rv = st['rv']
+            if rv['k'] in ('use', 'cast'):
+                pl = op_place(rv['op'])
+                if pl is not None and _flows_from(body, pl['l'], src, depth + 1, seen):
+                    return True
+            elif rv['k'] == 'aggr':
+                for o in rv['ops']:
+                    if _flows_from(body, op_local(o), src, depth + 1, seen):
+                        return True
+        else:
+            c = callee_of(st)
+            if c and (c['path'] in RESULT_PLUMBING or c['name'] in ('from', 'into')) and st['args']:
+                if _flows_from(body, op_local(st['args'][0]), src, depth + 1, seen):
+                    return True
+    return False
 
 
 def _trace_ref(body, local):
@@ -150,15 +189,47 @@ def check_delegation(body, info, out, decs_by_ty, sec):
     if info['callee_name'] != 'parse_' + sec:
         ok = False
         why.append('delegates to `%s` instead of `parse_%s`' % (info['callee_name'], sec))
-    # map_err must consume the delegate's result and produce _0
-    m = info['map_err']
-    if place_key(m['dest']) != (0, ()):
+    # the plumbing consumes the delegate's result and nothing else; what is returned is that result
+    # (error mapped) or Ok(()) on its success edge
+    res_l = t['dest']['l']
+    for pt, pc in info['plumbing']:
+        l0p = op_local(pt['args'][0]) if pt['args'] else None
+        if not _flows_from(body, l0p, res_l):
+            ok = False
+            why.append('`%s` is not applied to the delegate result' % pc['name'])
+        if pc['name'] == 'map_err' and len(pt['args']) > 1:
+            a = pt['args'][1]
+            cl = op_local(a)
+            if cl is not None:
+                # a closure: it must not capture anything (it could touch the state on the error path)
+                caps = None
+                for bi, si, kind, st in body.defs.get(cl, []):
+                    if kind == 'assign' and st['rv']['k'] == 'aggr' and st['rv'].get('closure'):
+                        caps = st['rv']['ops']
+                if caps is None or caps:
+                    ok = False
+                    why.append('the error of the delegate is mapped by a closure that captures state: the wrapper can '
+                               'act on the state although the delegated parser reported an error')
+    for bi, si, kind, st in body.defs.get(0, []):
+        if kind == 'assign':
+            rv = st['rv']
+            if rv['k'] == 'aggr' and rv.get('variant') == 'Ok':
+                continue
+            pl = op_place(rv['op']) if rv['k'] in ('use', 'cast') else None
+            if pl is None or not _flows_from(body, pl['l'], res_l):
+                ok = False
+                why.append('the return value is not the delegate result')
+        else:
+            c0 = callee_of(st)
+            if not (c0 and c0['path'] in RESULT_PLUMBING and _flows_from(body, op_local(st['args'][0]) if st['args'] else None, res_l)):
+                ok = False
+                why.append('the return value is not derived from the delegate result')
+    # the Ok(()) return must sit on the success edge of the delegate result, i.e. after a `branch`
+    has_ok_literal = any(kind == 'assign' and st['rv']['k'] == 'aggr' and st['rv'].get('variant') == 'Ok'
+                         for bi, si, kind, st in body.defs.get(0, []))
+    if has_ok_literal and not any(pc['name'] == 'branch' for _pt, pc in info['plumbing']):
         ok = False
-        why.append('result of map_err is not returned directly')
-    ml = op_local(m['args'][0]) if m['args'] else None
-    if ml is None or ml != t['dest']['l']:
-        ok = False
-        why.append('map_err is not applied to the delegate result')
+        why.append('returns Ok(()) without testing the delegate result')
     # no other writes through the state
     for blk in body.blocks:
         if blk.get('cleanup'):
@@ -418,11 +489,39 @@ def let_bindings(hfn):
     """name -> init expr for simple `let name = init` statements"""
     res = {}
 
+    def bind_struct(pat, init):
+        # `let S { a, b: c, .. } = init;` binds a -> init.a, c -> init.b (recursively)
+        for f in pat.get('fields', []):
+            sub = {'k': 'field', 'e': init, 'n': f['n']}
+            p2 = f.get('p', {})
+            if p2.get('k') == 'bind':
+                res[p2['name']] = sub
+            elif p2.get('k') == 'pstruct':
+                bind_struct(p2, sub)
+
     def visit(e):
-        if e.get('k') == 'slet' and e['pat'].get('k') == 'bind' and 'init' in e:
-            res[e['pat']['name']] = e['init']
+        if e.get('k') == 'slet' and 'init' in e:
+            if e['pat'].get('k') == 'bind':
+                res[e['pat']['name']] = e['init']
+            elif e['pat'].get('k') == 'pstruct':
+                bind_struct(e['pat'], e['init'])
     hir_walk(hfn['body'], visit)
     return res
+
+
+def resolve_chain(e, lets, depth=0):
+    """field chain of e with leading locals replaced by the field chains they are bound to"""
+    fc = field_chain(e)
+    if fc is None:
+        return None
+    root, names = fc
+    while depth < 6 and root in lets:
+        fc2 = field_chain(lets[root])
+        if fc2 is None:
+            break
+        root, names = fc2[0], fc2[1] + names
+        depth += 1
+    return root, names
 
 
 def field_chain(e):
@@ -459,6 +558,7 @@ def check_create(facts, out, by_ty):
             out.add('DG-D5', m[0]['path'], 'create', loc_of(impl['sp']), True, '', {'form': 'default()'}, ordinal=False)
             continue
         st = structs[-1]
+        lets5 = let_bindings(hfn)
         for f in st['fields']:
             fty = None
             for af in adt['variants'][0]['fields']:
@@ -466,6 +566,8 @@ def check_create(facts, out, by_ty):
                     fty = af['ty'].get('adt')
             if fty in state_tys and fty != sty:
                 e = f['e']
+                if e.get('k') == 'local' and e.get('name') in lets5:
+                    e = lets5[e['name']]        # hoisted into a `let`
                 ok = False
                 why = 'sub-state `%s` is not built with its own create(version)' % f['n']
                 if e.get('k') == 'call' and e['f'].get('k') == 'path' and e['f'].get('name') == 'create':
@@ -605,8 +707,8 @@ def _check_field_init(facts, kind, tgt, fname, e, lets, pname, state_of, decoder
         init = lets.get(e['name'])
         if init is None:
             return False, 'field `%s` is initialised from local `%s` of unknown origin' % (fname, e['name'])
-        fc2 = field_chain(init)
-        if fc2 is None:
+        fc2 = resolve_chain(init, lets)
+        if fc2 is None or not fc2[1]:
             if kind == 'default':
                 return True, ''
             return False, 'field `%s`: local `%s` is not a field of the source' % (fname, e['name'])
@@ -628,11 +730,28 @@ def _check_field_init(facts, kind, tgt, fname, e, lets, pname, state_of, decoder
     init = lets.get(root)
     if init is None:
         return False, 'field `%s`: source `%s` has unknown origin' % (fname, root)
-    return _check_sub_value(init, pname, state_of, decoder_of_state, kind, fname, root)
+    return _check_sub_value(init, pname, state_of, decoder_of_state, kind, fname, root, lets)
 
 
-def _check_sub_value(init, pname, state_of, decoder_of_state, kind, fname, root):
+def _check_sub_value(init, pname, state_of, decoder_of_state, kind, fname, root, lets=None):
+    lets = lets or {}
     k = init.get('k')
+    if k == 'call' and init['f'].get('k') == 'path' and init['f'].get('name') == 'from' and len(init['args']) == 1 \
+            and kind != 'default':
+        # `T::from(state.x)` / `T::from(x_state)` -- the same conversion as `state.x.into()`
+        full = init.get('full', '')
+        recv = resolve_chain(init['args'][0], lets)
+        if recv is None or recv[0] != pname or not recv[1]:
+            return False, 'field `%s`: `%s` is not converted from a field of the state' % (fname, root)
+        try:
+            t_ty = full[1:full.index(' as ')]
+            s_ty = full[full.index('From<') + 5:full.index('>>::from')]
+        except ValueError:
+            return False, 'field `%s`: cannot resolve the conversion `%s`' % (fname, full)
+        if state_of.get(t_ty) != s_ty and s_ty != t_ty:
+            return False, ('field `%s`: sub-state `%s` is converted into `%s`, which is not its decoder value'
+                           % (fname, s_ty, t_ty))
+        return True, ''
     if kind == 'default':
         # `let x = X::default()`
         if k == 'call' and init['f'].get('name') == 'default':
@@ -641,7 +760,7 @@ def _check_sub_value(init, pname, state_of, decoder_of_state, kind, fname, root)
     if k == 'mcall' and init.get('name') == 'into':
         full = init.get('full', '')
         # `<S as Into<T>>::into`
-        recv = field_chain(init['recv'])
+        recv = resolve_chain(init['recv'], lets)
         if recv is None or recv[0] != pname:
             return False, 'field `%s`: `%s` is not converted from a field of the state' % (fname, root)
         try:
@@ -653,7 +772,7 @@ def _check_sub_value(init, pname, state_of, decoder_of_state, kind, fname, root)
             return False, ('field `%s`: sub-state `%s` is converted into `%s`, which is not its decoder value'
                            % (fname, s_ty, t_ty))
         return True, ''
-    fc = field_chain(init)
+    fc = resolve_chain(init, lets)
     if fc is not None and fc[0] == pname:
         return True, ''
     return False, 'field `%s`: source `%s` is not derived from the parameter' % (fname, root)
